@@ -9,6 +9,7 @@ The conjuncts that `wfb` lacks for being an inductive invariant (`Proofs/DlIndCe
   * `tailOkB`   in a non-head segment every header that is neither fencepost nor record chunk ends at
                 least `top_foot_size` bytes before the segment end
   * `headOkB`   the first header of a segment is not a fencepost
+  * `recInB`    the record of a non-head segment lies inside that segment
 
 `Proofs/DlInvCheck.lean` proves `invB hs = true → Inv hs`.
 -/
@@ -31,9 +32,12 @@ def tailOkB (s : St) : Bool :=
 def headOkB (s : St) : Bool :=
   s.segs.all fun g => s.h.ents.all fun e => !(decide (e.addr = g.base)) || !(decide (e.size = 8))
 
+def recInB (s : St) : Bool :=
+  s.segs.all fun g => decide (g.recAt = 0) || (decide (g.base + 16 ≤ g.recAt) && decide (g.recAt < g.base + g.size))
+
 def invParts (hs : Hist) : List (String × Bool) :=
   wfParts hs ++ [("recsOk", recsOkB hs.st), ("fenceOk", fenceOkB hs.st), ("tailOk", tailOkB hs.st),
-    ("headOk", headOkB hs.st)]
+    ("headOk", headOkB hs.st), ("recIn", recInB hs.st)]
 
 def invB (hs : Hist) : Bool := (invParts hs).all (·.2)
 
